@@ -48,6 +48,7 @@ func runC07(c *Ctx) {
 	c11CloseOnce(c)
 	c11WriteLock(c)
 	c12WriterGoroutineBounded(c)
+	lruIsSynchronised(c)
 }
 
 func isZeroValue(v ssa.Value) bool {
